@@ -1098,3 +1098,42 @@ func checkStrictDispatch(c *Ctx, p *Prog, rule string) {
 		c.Undecided(rule, "byte-dispatching recogniser", "-", "no recogniser dispatching on the current byte found")
 	}
 }
+
+// checkGenuineReplacementChar: wherever a decoder's output rune is compared with U+FFFD in order to
+// drop it, the "it is U+FFFD" edge must lead to a second test that compares the consumed bytes with the
+// charset's own encoding of U+FFFD (a bytes.Equal-derived condition): only input the decoder could not
+// decode may be dropped, not the character itself.
+func checkGenuineReplacementChar(c *Ctx, p *Prog, fn *ssa.Function, rule string) {
+	n := 0
+	for _, b := range fn.Blocks {
+		if len(b.Instrs) == 0 {
+			continue
+		}
+		iff, ok := b.Instrs[len(b.Instrs)-1].(*ssa.If)
+		if !ok {
+			continue
+		}
+		bo, ok := iff.Cond.(*ssa.BinOp)
+		if !ok || (bo.Op != token.NEQ && bo.Op != token.EQL) {
+			continue
+		}
+		if k, isK := constInt(bo.Y); !isK || k != 0xFFFD {
+			continue
+		}
+		n++
+		sub := b.Succs[1] // r != U+FFFD is false
+		if bo.Op == token.EQL {
+			sub = b.Succs[0]
+		}
+		ok2 := false
+		if len(sub.Instrs) > 0 {
+			if i2, isIf := sub.Instrs[len(sub.Instrs)-1].(*ssa.If); isIf && derivesFromBytesEqual(p, i2.Cond, 4) {
+				ok2 = true
+			}
+		}
+		c.Check(ok2, rule, fmt.Sprintf("%s:U+FFFD-test#%d:genuine-one-delivered", fn.Name(), n), p.pos(iff.Pos()), "a rune equal to U+FFFD is dropped only after the consumed bytes were compared with the charset's encoding of U+FFFD")
+	}
+	if n == 0 {
+		c.Undecided(rule, fn.Name()+":U+FFFD-test", p.pos(fn.Pos()), "no comparison of the decoded rune with U+FFFD found")
+	}
+}
